@@ -193,9 +193,7 @@ def r3_declared_return(ctx):
 
 
 def run(ctx):
-    r1_guarded_application(ctx)
-    r2_unify_polarity(ctx)
-    r3_declared_return(ctx)
+    ctx.run_rules([r1_guarded_application, r2_unify_polarity, r3_declared_return])
     ctx.note("NOT decided: soundness of narrowing, complement narrowing carve-outs, return-type dispatch tables, pattern analysis — properties of the "
              "type checker's output over all programs; correctness of the judgments themselves is C09")
     return (
